@@ -103,6 +103,10 @@ type c02Tok struct {
 	root     bool
 	entity   string // identity entity the token is bound to ("" = none)
 	entityOff bool  // that entity is currently disabled
+	// identity-derived policies: those attached to the entity and to a group the entity is a member of apply to every
+	// request of the token in addition to its own, unless the token was created with no_identity_policies
+	identityPols []string
+	noIdentity   bool
 }
 
 type c02World struct {
@@ -201,7 +205,16 @@ var c02Paths = []string{"rb/kv/x", "rb/kv/x", "rb/kv/sub/z", "rb/echo/e", "rb/ro
 
 func (w *c02World) liveTokenPolicies(tk *c02Tok) []c02Policy {
 	var out []c02Policy
-	for _, n := range tk.policies {
+	names := append([]string(nil), tk.policies...)
+	if tk.entity != "" && !tk.noIdentity {
+		names = append(names, tk.identityPols...)
+	}
+	seen := map[string]bool{}
+	for _, n := range names {
+		if seen[n] {
+			continue
+		}
+		seen[n] = true
 		if p, ok := w.pols[tk.ns+n]; ok {
 			out = append(out, p)
 		}
@@ -414,17 +427,34 @@ func TestVerif_C02_Authz(t *testing.T) {
 				if len(w.toks) >= 7 {
 					return
 				}
+				var entPols, grpPols []string
+				if rapid.Bool().Draw(rt, "entityHasPolicy") {
+					entPols = []string{[]string{"p1", "p2", "p3"}[rapid.IntRange(0, 2).Draw(rt, "entityPolicy")]}
+				}
+				if rapid.Bool().Draw(rt, "entityInGroupWithPolicy") {
+					grpPols = []string{[]string{"p1", "p2", "p3"}[rapid.IntRange(0, 2).Draw(rt, "groupPolicy")]}
+				}
+				noIdentity := rapid.IntRange(0, 2).Draw(rt, "noIdentityPolicies") == 0
 				er, err := tc.c.identityStore.HandleRequest(tc.ctx, &logical.Request{Operation: logical.UpdateOperation, Path: "entity",
-					Data: map[string]any{"name": fmt.Sprintf("ent%d", len(w.toks))}})
+					Data: map[string]any{"name": fmt.Sprintf("ent%d", len(w.toks)), "policies": entPols}})
 				if err != nil || er == nil || er.IsError() {
 					t.Fatalf("harness: entity: %v %v", er, err)
 				}
 				id, _ := er.Data["id"].(string)
+				if len(grpPols) > 0 {
+					gr, err := tc.c.identityStore.HandleRequest(tc.ctx, &logical.Request{Operation: logical.UpdateOperation, Path: "group",
+						Data: map[string]any{"name": fmt.Sprintf("grp%d", len(w.toks)), "policies": grpPols, "member_entity_ids": []string{id}}})
+					if err != nil || gr == nil || gr.IsError() {
+						t.Fatalf("harness: group: %v %v", gr, err)
+					}
+				}
 				pol := []string{"p1", "p2"}[fairIndex(rt, "pol", 2)]
-				te := &logical.TokenEntry{Path: "test", Policies: []string{pol}, EntityID: id, TTL: time.Hour}
+				// no_identity_policies is what the OIDC provider's token endpoint sets on the access tokens it hands to relying parties
+				te := &logical.TokenEntry{Path: "test", Policies: []string{pol}, EntityID: id, TTL: time.Hour, NoIdentityPolicies: noIdentity}
 				testMakeTokenDirectly(t, tc.ctx, tc.c.tokenStore, te)
-				w.toks = append(w.toks, &c02Tok{name: fmt.Sprintf("t%d", len(w.toks)), id: te.ID, acc: te.Accessor, policies: []string{pol}, alive: true, entity: id})
-				w.logf("token t%d policies=[%s] bound to entity", len(w.toks)-1, pol)
+				w.toks = append(w.toks, &c02Tok{name: fmt.Sprintf("t%d", len(w.toks)), id: te.ID, acc: te.Accessor, policies: []string{pol}, alive: true, entity: id,
+					identityPols: append(entPols, grpPols...), noIdentity: noIdentity})
+				w.logf("token t%d policies=[%s] bound to entity (entity policies %v, group policies %v, no_identity_policies=%v)", len(w.toks)-1, pol, entPols, grpPols, noIdentity)
 			},
 			"entity-toggle": func(rt *rapid.T) {
 				var c []*c02Tok
